@@ -340,7 +340,7 @@ def narrowings(c, f, ps):
                     raise Broken("%s: a length-derived value (%s) is truncated to %d bits inside a loop; whether it is bounded there depends on conditions established "
                                  "before the loop, which the per-iteration summary does not carry: not decided" % (f.name, e[3], e[2]))
                 seen.add(e[1])
-                c.ob(False, "ADVANCE", "length-narrowed#%s" % I.id, "",
+                c.ob(False, "NARROW" if "NARROW" in c.rulemap else "ADVANCE", "length-narrowed#%s" % I.id, "",
                      "the length-derived value %s is truncated to %d bits with no bound on this path: for lengths >= 2^%d the number of blocks processed is wrong"
                      % (e[3], e[2], e[2]), where=relpath(I.where))
     return len(seen)
@@ -562,7 +562,7 @@ def absorb_injective_rule(ck, mod, label, rule):
         for fn_, kw in ((check_absorb_small, {"maxlen": 24}), (check_absorb, {})):
             snap = ck.snapshot()
             try:
-                n += fn_(ck, mod, ks, label, {"INJ": rule}, **kw)
+                n += fn_(ck, mod, ks, label, {"INJ": rule, "NARROW": rule}, **kw)
             except Broken as e:
                 ck.rollback(snap)
                 ck.note("injectivity of tinyjambu_absorb_%s not decided by %s: %s" % (ks, fn_.__name__, str(e)[:160]))
@@ -576,6 +576,8 @@ def check_absorb(ck, mod, ks, label, rulemap):
     di = f.param_index("domain")
     ri = f.param_index("rounds")
     ex, ps = run_paths(f, klen, word_args=[di])
+    if narrowings(Ctx(ck, f, label, rulemap), f, ps):
+        return 1
     chains = data_chains(f, ps)
     n = 0
     for i_, ch_ in enumerate(chains):
